@@ -231,8 +231,16 @@ class C17bInitModels:
         for f in ("_settings", "variable_sizes", "_objective_name"):
             if f in sch:
                 o.fields[f] = sch[f].fresh(st, f"init.{f}")
+        dso = st.heap[bound["design_space"].id] if isinstance(bound["design_space"], Ref) else None
+        dv = st.heap.get(dso.fields["_variables"].id) if isinstance(dso, PyObj) and isinstance(dso.fields.get("_variables"), Ref) else None
+        if "variable_sizes" in sch and isinstance(dv, DictObj):
+            # variable_sizes = design_space.variable_sizes.copy(): a new dictionary with exactly the names of the variables the design space has NOW
+            vs = st.heap[o.fields["variable_sizes"].id]
+            x = z3.Const("x!vs", STR)
+            st.assume(z3.ForAll([x], vs.member[x] == dv.member[x], patterns=[vs.member[x]]))
         ex.assumed.add("model of BaseFormulation.__init__: disciplines = tuple(disciplines), optimization_problem = a new OptimizationProblem holding the very "
-                       "design space passed in, arbitrary validated settings; nothing else is touched")
+                       "design space passed in, variable_sizes = a new dictionary with exactly the names of its variables, arbitrary validated settings; "
+                       "nothing else is touched")
         return None
 
     def construct(self, ex, cv, args, kwargs, lineno):
@@ -292,6 +300,8 @@ class C17bInitModels:
         ref = ex.st.alloc(o)
         for f, t in C.class_schema(key).items():
             o.fields[f] = t.fresh(ex.st, f"mda.{f}")
+        if "c17_declares_linear" in o.fields:
+            ex.st.assume(z3.Not(o.fields["c17_declares_linear"].term))  # a new MDA declares no linear input-output relationship
         o.c17_created_from = list(args)
         ex.assumed.add("model of MDAFactory.create(name, disciplines, settings_model=...): a new MDA with an arbitrary coupling structure and input grammar "
                        "(the couplings of an MDA are those of its disciplines: C08), no effect on the formulation")
